@@ -1069,3 +1069,45 @@ EXHAUSTIVE = {
         (['init writers=2 readers=0 cmp=plain'], [['put 5 0', 'del 5'], ['put 5 0']], ['snap', 'state']),
     ],
 }
+
+
+def gen_skipconc_scan(rng, tier, sess):
+    """thread 0 scans with a finite refresh interval while the other threads insert and delete around it"""
+    n = rng.choice((2, 3))
+    nkeys = rng.choice((3, 5, 8))
+    sess.send('threads %d' % n)
+    for k in range(nkeys):
+        if rng.random() < 0.7:
+            o = sess.send('start 0 ins %d lvl=%d' % (k * 2 + 2, rng.choice((0, 0, 1, 2))))
+            while o.startswith('at '):
+                o = sess.send('step 0')
+    busy = [False] * n
+    o = sess.send('start 0 it_first s')
+    valid = o.startswith('ret') and o != 'ret end'
+    sess.send('start 0 it_interval s %d' % rng.choice((1, 1, 2, 3)))
+    for _ in range(rng.randrange(20, 160 if tier == 'quick' else 500)):
+        t = 0 if rng.random() < 0.45 else rng.randrange(1, n)
+        if busy[t]:
+            o = sess.send('step %d' % t)
+        elif t == 0:
+            if valid:
+                o = sess.send('start 0 it_next s')
+            else:
+                o = sess.send(rng.choice(('start 0 it_first s', 'start 0 it_seek s %d' % rng.randrange(nkeys * 2 + 3))))
+        else:
+            k = rng.randrange(nkeys) * 2 + 2
+            if rng.random() < 0.5:
+                o = sess.send('start %d ins %d lvl=%d' % (t, k, rng.choice((0, 0, 1, 2))))
+            else:
+                o = sess.send('start %d del %d' % (t, k))
+        busy[t] = o.startswith('at ')
+        if t == 0 and o.startswith('ret'):
+            valid = o != 'ret end' and o != 'ret'
+    guard = 0
+    while any(busy) and guard < 100000:
+        guard += 1
+        t = rng.choice([i for i in range(n) if busy[i]])
+        busy[t] = sess.send('step %d' % t).startswith('at ')
+    sess.send('start 0 it_close s')
+    sess.send('walk')
+    sess.send('stats')
